@@ -218,7 +218,7 @@ def graph_specs(draw, max_atoms=14):
     return _finish(draw, atoms, bonds, free)
 
 
-LINKERS = ['bond', 'O', 'S', 'N', 'C', 'CC', 'C=C', 'para', 'meta', '135', 'spiro-ring', 'N+']
+LINKERS = ['bond', 'O', 'S', 'N', 'C', 'CC', 'C=C', 'para', 'meta', '135', 'spiro-ring', 'N+', 'CX', 'CX']
 
 
 @st.composite
@@ -260,6 +260,11 @@ def symmetric_specs(draw, unit_atoms=7):
         x = add('C', 0, 4)
         k = draw(st.integers(2, 4))
         ports = [x] * k
+    elif link == 'CX':  # carbon bearing one hetero substituent between two copies: pseudo-asymmetric centre candidate
+        x = add('C', 0, 4)
+        y = add(draw(st.sampled_from(['O', 'Cl', 'N', 'F'])), 0, 3)
+        bond(x, y)
+        ports, k = [x, x], 2
     elif link == 'CC':
         x, y = add('C', 0, 4), add('C', 0, 4)
         bond(x, y)
@@ -421,6 +426,9 @@ def decorate_stereo(m, choices):
                 progress = True
         if not progress:
             break
+    # a later label can make an earlier centre non-stereogenic (two substituents become identical); add_*_stereo does not
+    # re-examine other centres, the documented clean-up is fix_stereo
+    m.fix_stereo()
 
 
 def normalise(m):
